@@ -127,6 +127,7 @@ def run(tier):
         chk.clause('C15.pivguard', 'ilu_?pivotL accepts the remembered pivot / the diagonal only if its magnitude is non-zero and passes the threshold')
         for p in _drv.PRECS:
             _pivot.ilu_threshold_guard_rule(chk, 'C15.pivguard', prog, p, cfgname)
+            _pivot.ilu_magnitude_twin_rule(chk, 'C15.pivguard', prog, p, cfgname)
         chk.clause('C15.slot', 'a slot reserved for the fill position of an empty ILU column is written before the pivot search reads it')
         for p in _drv.PRECS:
             misc.reserved_slot_rule(chk, 'C15.slot', prog, p, cfgname)
